@@ -453,6 +453,12 @@ func (c19) Eval(t *testing.T, c *Case, dec func(int) *Decider) *Outcome {
 	if bin := os.Getenv("VERIF_CSVQ_BIN"); bin != "" && (meta.Fault == "none" || meta.Fault == "missing" || meta.Fault == "dir-in-place") && Sub(c.Seed, "real").Bool(0.5) {
 		code, stderr, err := realRun(bin, sc, &meta)
 		o.RealProc++
+		if err != nil && strings.Contains(err.Error(), "did not terminate within") {
+			// once more: a process that hangs twice in a row hangs; a single stall on a loaded machine is only noted
+			o.Notes = append(o.Notes, "a real-process run stalled once: "+err.Error())
+			code, stderr, err = realRun(bin, sc, &meta)
+			o.RealProc++
+		}
 		if err != nil {
 			o.viol(prop, "never-hangs", "real-process:"+errClass(err.Error()), err.Error())
 		} else {
